@@ -12,13 +12,14 @@ import (
 
 func init() {
 	registerProperty(&Property{
-		ID: "C16",
+		ID:          "C16",
 		Explanation: "Decides structural necessary conditions of invocation transport: (R1) every field of bigslice.Invocation and of execInvocation is either in the directly encoded field list (name and address of the same field) or is Args, which both codec functions handle; (R2) GobEncode and GobDecode walk the same field list first and then the arguments with the same Func lookup and the same per-argument predicate (parameter kind is interface => encode the address / decode into an empty interface), decode maps *Result parameters to invocationRef, invocationRef is gob-registered, the driver substitutes *Result by invocationRef before storing and the worker substitutes it back before invoking; (R3) on first sight of an invocation its serialisation is checked before a machine is requested, a failure makes the task ERR, the encoder's error is wrapped Fatal+Invalid and the compile loop's fatal arm matches exactly that; (R4) a started machine is added to the cluster only after the Func registry comparison came back empty. Not decided: gob fidelity for all types, correctness of FuncLocationsDiff (a value-level dynamic program).",
 		Rules: []Rule{
 			{ID: "C16-R1", Doc: "every field of the invocation travels", Run: c16r1},
 			{ID: "C16-R2", Doc: "encode/decode agree; Result<->invocationRef substitution", Run: c16r2},
 			{ID: "C16-R3", Doc: "unencodable arguments fail fast and fatally", Run: c16r3},
 			{ID: "C16-R4", Doc: "registry check precedes use of a machine", Run: c16r4},
+			{ID: "C16-R5", Doc: "a worker receives invocations dependencies-first", Run: c16r5},
 		},
 	})
 }
